@@ -2136,8 +2136,11 @@ transmit(PseudoTcpSocket *self, SSegment *segment, guint32 now)
     g_queue_pop_head (&priv->unsent_slist);
     priv->snd_nxt += segment->len;
 
-    /* FIN flags require acknowledgement. */
-    if (segment->len == 0 && segment->flags & FLAG_FIN)
+    /* FIN flags require acknowledgement. The FIN occupies a single sequence
+     * number, however many FIN segments get queued (one is queued on every
+     * clock notification in the LAST-ACK state). */
+    if (segment->len == 0 && segment->flags & FLAG_FIN &&
+        priv->snd_nxt == segment->seq)
       priv->snd_nxt++;
   }
   segment->xmit += 1;
